@@ -89,6 +89,9 @@ func (c31Engine) Generate(seed uint64, tier string) *simrun.Case {
 			c.Ops = append(c.Ops, simrun.Op{K: "purge"})
 		}
 	}
+	// swarm: in two thirds of the runs every mutex release is followed by a scheduling point (a goroutine can lose
+	// the processor right after an Unlock, before its next statement)
+	c.Knobs["unlock_yield"] = []int64{0, 1, 1}[r.Intn(3)]
 	return c
 }
 
